@@ -275,6 +275,12 @@ def faults(model, cfg, facts):
             m, c = mod()
             c[side] = sel
             yield f'{side}-sel:{name}', m, c
+            if name.startswith(('explicit', 'first+rem', 'split', 'unknown', 'both')):
+                # REPRESENTATION: the same selection with its names as instances of a str subclass (Enum-like)
+                m, c = mod()
+                c[side] = sel
+                c['names_form'] = 'subclass'
+                yield f'{side}-sel:{name}:str-subclass', m, c
     # --- multi client
     if cfg.get('mc'):
         for name, key, val in (('mc-port-unknown', 'port', 'zz'), ('mc-port-empty', 'port', ''),
@@ -315,6 +321,10 @@ def faults(model, cfg, facts):
             c['mc'] = {'port': prov[0], 'claim': 'EnumRet', 'grant': 'Ok', 'release': 'V0'}
             c['provides'] = ['ALL', 'NONE']
             yield 'mc-on-sts-port', m, c
+    # --- the unchanged configuration with all names (selections, multi-client settings) as str-subclass instances
+    m, c = mod()
+    c['names_form'] = 'subclass'
+    yield 'names-as-str-subclass', m, c
     # --- facilities origin that is not a member of the enumeration
     for raw in ('RAW:None', 'RAW:str', 'RAW:value', 'RAW:int', 'RAW:other-enum-create', 'RAW:other-enum-import'):
         m, c = mod()
